@@ -572,6 +572,16 @@ func (a *Application) startProxyGoroutine(
 ) chan error {
 	proxyErrChan := make(chan error, 1)
 	go func() {
+		// a panic on this goroutine would take the whole process down (nothing above it recovers);
+		// turn it into an ordinary proxy error so the request fails and everything else keeps running
+		defer func() {
+			if rec := recover(); rec != nil {
+				a.logger.Error("Panic in streaming proxy goroutine", "panic", rec, "model", pr.model)
+				streamRecorder.ensureHeadersReady()
+				pipeWriter.Close()
+				proxyErrChan <- fmt.Errorf("proxy panic: %v", rec)
+			}
+		}()
 		localCtx, localR := a.prepareProxyContext(ctx, r, pr)
 		err := a.proxyService.ProxyRequestToEndpoints(localCtx, streamRecorder, localR, endpoints, pr.stats, pr.requestLogger)
 		// If the proxy returned an error without ever calling Write or WriteHeader,
